@@ -2189,7 +2189,7 @@ Definition bare_number (ts : list token) : Prop :=
   end.
 
 Lemma numsoft_bare n : numsoft n -> bare_number (flatten n).
-Proof. destruct n as [tg v]; destruct v; cbn; auto. Qed.
+Proof. destruct n as [tg v]; destruct v; cbn [numsoft]; intros H; try contradiction; exact I. Qed.
 
 Theorem jdec_run_frame : forall bs toks rest ext,
   jdec_run bs = JDOk toks rest ->
@@ -2282,3 +2282,241 @@ Print Assumptions dec_many_encoded.
 Print Assumptions jdec_run_frame.
 Print Assumptions jdec_run_ws.
 Print Assumptions jdec_many_concat.
+
+(* ---------- the JSON encoder's outputs, separated by whitespace ------------- *)
+
+Lemma ws_terminator w : ws_bytes w -> terminator_ok w.
+Proof.
+  unfold ws_bytes. destruct w as [|b w]; [intros _; exact I|].
+  cbn [forallb terminator_ok]. intros H. apply andb_prop in H. destruct H as [H _].
+  unfold is_ws in H. unfold is_numchar, is_digit. lia.
+Qed.
+
+Section JsonStream.
+  Variable sh : Z -> list Z * Z.
+  Variable float_ok : Z -> Prop.
+  Variable fnorm : Z -> tval.
+  Hypothesis Hflt : forall b rest, float_ok b -> terminator_ok rest ->
+    exists first more, emit_float sh b = Some [first :: more] /\
+      (first = 45 \/ is_digit first = true) /\
+      is_leaf (fnorm b) = true /\
+      dec_number first (more ++ rest) = inl (leaf_tok (fnorm b), rest) /\
+      match fnorm b with VInt _ | VUint _ | VFlt _ => True | _ => False end.
+
+  (* the text the encoder writes for a tree (all of its Write calls) *)
+  Definition jenc_out (o : jopts) (n : tnode) : bytes :=
+    match jenc_tokens sh o (flatten n) with JFinished c _ => concat c | _ => [] end.
+
+  (* item, then the separator the application writes after it *)
+  Fixpoint jitems_text (o : jopts) (items : list (tnode * bytes)) : bytes :=
+    match items with
+    | [] => []
+    | it :: r => jenc_out o (fst it) ++ snd it ++ jitems_text o r
+    end.
+
+  Lemma bare_jnorm n : bare_number (flatten (jnorm fnorm n)) -> numsoft n.
+  Proof.
+    destruct n as [tg v]; destruct v; cbn [jnorm flatten bare_number numsoft tv]; auto.
+    - destruct (flat_map flatten (map (jnorm fnorm) items)); cbn [app]; auto.
+    - destruct (flat_map (fun kv => flatten (fst kv) ++ flatten (snd kv))
+                  (map (fun kv => (jnorm fnorm (fst kv), jnorm fnorm (snd kv))) entries)); cbn [app]; auto.
+  Qed.
+
+  Definition jdoc_of (o : jopts) (it : tnode * bytes) : jdoc :=
+    (jenc_out o (fst it) ++ snd it, flatten (jnorm fnorm (fst it)), top_tail o (fst it) ++ snd it).
+
+  Definition jitem_ok (it : tnode * bytes) : Prop :=
+    json_ok float_ok (fst it) /\ ws_bytes (snd it) /\ (numsoft (fst it) -> snd it <> []).
+
+  Lemma jdoc_of_ok o it ext : ws_opts o -> jitem_ok it ->
+    jdec_run (jd_text (jdoc_of o it)) = JDOk (jd_toks (jdoc_of o it)) (jd_ws (jdoc_of o it)) /\
+    ws_bytes (jd_ws (jdoc_of o it)) /\
+    (jd_ws (jdoc_of o it) = [] -> bare_number (jd_toks (jdoc_of o it)) -> terminator_ok ext).
+  Proof.
+    intros Ho (Hn & Hsep & Hnum). destruct it as [n sep]. cbn [fst snd] in *.
+    unfold jdoc_of, jd_text, jd_toks, jd_ws. cbn [fst snd].
+    destruct (json_encode_parses sh float_ok fnorm Hflt o n [] Ho Hn I) as (chunks & Hrun & fuel & Hp).
+    rewrite !app_nil_r in Hp.
+    assert (Hd : jdec_run (concat chunks) = JDOk (flatten (jnorm fnorm n)) (top_tail o n)).
+    { apply (jdec_complete fuel). apply strict_implies_lenient. exact Hp. }
+    split; [|split].
+    - unfold jenc_out. rewrite Hrun. apply jdec_run_frame; [exact Hd|].
+      intros _ _. apply ws_terminator. exact Hsep.
+    - apply ws_app; [apply top_tail_ws; exact Ho|exact Hsep].
+    - intros Hw Hb. exfalso. apply app_eq_nil in Hw. destruct Hw as [_ Hw].
+      apply bare_jnorm in Hb. exact (Hnum Hb Hw).
+  Qed.
+
+  Lemma jstream_of_items o items tail : ws_opts o -> Forall jitem_ok items ->
+    jstream_ok (map (jdoc_of o) items) tail.
+  Proof.
+    intros Ho H. induction H as [|it r Hit _ IH]; [exact I|].
+    cbn [map jstream_ok].
+    destruct (jdoc_of_ok o it (concat (map jd_text (map (jdoc_of o) r)) ++ tail) Ho Hit) as (H1 & H2 & H3).
+    repeat split; assumption.
+  Qed.
+
+  Lemma jitems_text_concat o items :
+    concat (map jd_text (map (jdoc_of o) items)) = jitems_text o items.
+  Proof.
+    induction items as [|it r IH]; [reflexivity|].
+    cbn [map concat jitems_text]. rewrite IH. unfold jdoc_of, jd_text. cbn [fst]. rewrite <- app_assoc. reflexivity.
+  Qed.
+
+  Lemma jrem_ws w0 docs tail : ws_bytes w0 -> Forall (fun d => ws_bytes (jd_ws d)) docs ->
+    exists rem, jrem w0 docs tail = rem ++ tail /\ ws_bytes rem.
+  Proof.
+    intros Hw H. revert w0 Hw. induction H as [|d r Hd _ IH]; intros w0 Hw.
+    - exists w0. split; [reflexivity|exact Hw].
+    - cbn [jrem]. apply IH. exact Hd.
+  Qed.
+
+  (* items marshalled back to back — each followed by whitespace of the
+     application's choosing, which must be non-empty after a bare number — are
+     read back one per call, in order; what remains is whitespace and [tail] *)
+  Theorem jdec_many_encoded : forall o items tail,
+    ws_opts o -> Forall jitem_ok items ->
+    exists rem, ws_bytes rem /\
+      jdec_many (length items) (jitems_text o items ++ tail) =
+        Some (map (fun it => flatten (jnorm fnorm (fst it))) items, rem ++ tail).
+  Proof.
+    intros o items tail Ho H.
+    pose proof (jstream_of_items o items tail Ho H) as Hs.
+    pose proof (jdec_many_concat _ tail [] Hs eq_refl) as D.
+    rewrite map_length, jitems_text_concat, map_map in D. cbn [app] in D.
+    destruct (jrem_ws [] (map (jdoc_of o) items) tail eq_refl) as (rem & Hrem & Hw).
+    { apply Forall_map. eapply Forall_impl; [|exact H]. intros it Hit.
+      destruct (jdoc_of_ok o it [] Ho Hit) as (_ & H2 & _). exact H2. }
+    exists rem. split; [exact Hw|]. rewrite <- Hrem. exact D.
+  Qed.
+End JsonStream.
+
+Print Assumptions jdec_many_encoded.
+
+(* ====================================================================== *)
+(* 11. Instances without any oracle hypothesis, and kernel-evaluated       *)
+(*     examples showing that every hypothesis above is satisfiable         *)
+(* ====================================================================== *)
+
+(* float-free documents: the oracle hypothesis is vacuous *)
+Definition no_float_ok : Z -> Prop := fun _ => False.
+
+Lemma no_float_hyp sh : forall b rest, no_float_ok b -> terminator_ok rest ->
+  exists first more, emit_float sh b = Some [first :: more] /\
+    (first = 45 \/ is_digit first = true) /\
+    is_leaf (VFlt b) = true /\
+    dec_number first (more ++ rest) = inl (leaf_tok (VFlt b), rest) /\
+    match VFlt b with VInt _ | VUint _ | VFlt _ => True | _ => False end.
+Proof. intros b rest []. Qed.
+
+(* no byte strings and no floats *)
+Definition jtok_plain (t : token) : bool :=
+  match tv t with Byt _ | Flt _ => false | _ => true end.
+
+Lemma jtok_plain_ok ts : forallb jtok_plain ts = true -> Forall (jtok_ok no_float_ok) ts.
+Proof.
+  intros H. apply Forall_forall. intros [v tg] Hx. rewrite forallb_forall in H. specialize (H _ Hx).
+  unfold jtok_plain, jtok_ok, no_float_ok in *. cbn [tv] in *. destruct v; try discriminate; exact I.
+Qed.
+
+Theorem pump_c2j_value_float_free : forall sh o c bs toks rest a,
+  ws_opts o -> bytes_ok bs -> dec_run c bs = DOk toks rest a ->
+  forallb jtok_plain toks = true -> json_keys_ok toks = true ->
+  exists out,
+    pump_c2j sh o c bs = PumpOk out rest /\
+    jdec_run out = JDOk (map (jnorm_tok VFlt) toks) (jtail o toks).
+Proof.
+  intros sh o c bs toks rest a Ho Hb H Hp Hk.
+  destruct (pump_c2j_value sh no_float_ok VFlt (no_float_hyp sh) o c bs toks rest a Ho Hb H
+              (jtok_plain_ok _ Hp) Hk) as (out & H1 & H2 & _).
+  eauto.
+Qed.
+
+Theorem pump_roundtrip_jcj_float_free : forall sh o c bs toks rest,
+  ws_opts o -> jdec_run bs = JDOk toks rest -> str_cap_ok toks = true ->
+  forallb jtok_plain toks = true ->
+  exists cb out2,
+    pump_j2c bs = PumpOk cb rest /\
+    pump_c2j sh o c cb = PumpOk out2 [] /\
+    jdec_run out2 = JDOk (map (jnorm_tok VFlt) (map canon_tok toks)) (jtail o toks).
+Proof.
+  intros sh o c bs toks rest Ho H Hcap Hp.
+  exact (pump_roundtrip_jcj sh no_float_ok VFlt (no_float_hyp sh) o c bs toks rest Ho H Hcap (jtok_plain_ok _ Hp)).
+Qed.
+
+Print Assumptions pump_c2j_value_float_free.
+Print Assumptions pump_roundtrip_jcj_float_free.
+
+(* a CBOR document exercising the normalisations: indefinite map, a half-precision
+   float (1.0), a definite array, a tag, an integer key; followed by a second item *)
+Definition ex_cbor : bytes :=
+  [191; 97; 107; 249; 60; 0; 1; 130; 246; 192 + 5; 32; 255; 7].
+
+Example ex_cbor_hyps :
+  bytes_okb ex_cbor = true /\
+  match dec_run false ex_cbor with
+  | DOk toks rest _ =>
+      rest = [7] /\ cbor_keys_ok toks = true /\ str_cap_ok toks = true /\
+      toks = [Tok (MapOpen (-1)) None; Tok (Str [107]) None; Tok (Flt 4607182418800017408) None;
+              Tok (Uint 1) None; Tok (ArrOpen 2) None; Tok Null None; Tok (Int (-1)) (Some 5);
+              Tok ArrClose None; Tok MapClose None]
+  | _ => False
+  end.
+Proof. vm_compute. repeat split; reflexivity. Qed.
+
+(* lengths and the tag are preserved, the half float is written as float64;
+   the second item is untouched; re-pumping the output reproduces it *)
+Example ex_cbor_pump :
+  pump_c2c false ex_cbor =
+    PumpOk [191; 97; 107; 251; 63; 240; 0; 0; 0; 0; 0; 0; 1; 130; 246; 197; 32; 255] [7] /\
+  pump_c2c false [191; 97; 107; 251; 63; 240; 0; 0; 0; 0; 0; 0; 1; 130; 246; 197; 32; 255] =
+    PumpOk [191; 97; 107; 251; 63; 240; 0; 0; 0; 0; 0; 0; 1; 130; 246; 197; 32; 255] [].
+Proof. vm_compute. split; reflexivity. Qed.
+
+(* a CBOR document in JSON's data model (string keys, no bytes, no floats):
+   {"k": [1, -2, null, "x"], "t": true} with a tag that JSON drops *)
+Definition ex_cbor_json : bytes :=
+  [162; 97; 107; 132; 1; 33; 246; 192 + 7; 97; 120; 97; 116; 245].
+
+Example ex_cbor_json_hyps :
+  bytes_okb ex_cbor_json = true /\
+  match dec_run false ex_cbor_json with
+  | DOk toks rest _ =>
+      rest = [] /\ forallb jtok_plain toks = true /\ json_keys_ok toks = true /\
+      json_repr_all toks = true /\
+      str_cap_ok (map (jnorm_tok VFlt) toks) = true
+  | _ => False
+  end.
+Proof. vm_compute. repeat split; reflexivity. Qed.
+
+Example ex_cbor_json_pump :
+  let o := JOpts None [] in
+  pump_c2j (fun _ => ([], 0)) o false ex_cbor_json =
+    PumpOk [123; 34;107;34; 58; 91; 49; 44; 45;50; 44; 110;117;108;108; 44; 34;120;34; 93; 44;
+            34;116;34; 58; 116;114;117;101; 125] [] /\
+  pump_j2c [123; 34;107;34; 58; 91; 49; 44; 45;50; 44; 110;117;108;108; 44; 34;120;34; 93; 44;
+            34;116;34; 58; 116;114;117;101; 125] =
+    PumpOk [191; 97; 107; 159; 1; 33; 246; 97; 120; 255; 97; 116; 245; 255] [].
+Proof. vm_compute. split; reflexivity. Qed.
+
+(* a JSON text satisfying the hypotheses of the JSON-side theorems *)
+Example ex_json_hyps :
+  match jdec_run [32; 91; 49; 44; 32; 34; 120; 34; 93; 32] with
+  | JDOk toks rest => rest = [32] /\ str_cap_ok toks = true /\ forallb jtok_plain toks = true
+  | _ => False
+  end.
+Proof. vm_compute. repeat split; reflexivity. Qed.
+
+(* three JSON values in one stream: "[1]" "2" (needs its terminator) "null" *)
+Example ex_json_stream :
+  jdec_many 3 [91; 49; 93; 50; 32; 110; 117; 108; 108; 10] =
+    Some ([[Tok (ArrOpen (-1)) None; Tok (Int 1) None; Tok ArrClose None];
+           [Tok (Int 2) None]; [Tok Null None]], [10]).
+Proof. vm_compute. reflexivity. Qed.
+
+(* two CBOR items in one stream *)
+Example ex_cbor_stream :
+  dec_many 2 false [130; 1; 2; 246; 9] =
+    Some ([[Tok (ArrOpen 2) None; Tok (Uint 1) None; Tok (Uint 2) None; Tok ArrClose None];
+           [Tok Null None]], [9]).
+Proof. vm_compute. reflexivity. Qed.
